@@ -11,6 +11,7 @@
    trigger hypotheses are gone. *)
 From RV Require Import Grammar.Model Grammar.Proofs Grammar.Reader Grammar.ReaderProofs Grammar.ReaderDoc.
 From RV Require Import Grammar.Resolve Grammar.ResolveProofs Grammar.TurtleStr Grammar.TurtleStrProofs.
+From RV Require Import Grammar.TurtleIri Grammar.TurtleIriProofs.
 Local Open Scope N_scope.
 
 (* "Conversely rdflib's N-Triples output is accepted by a strict implementation of
@@ -328,6 +329,40 @@ Print Assumptions C05_turtle_string_spec_ok_model.
 Example C05_turtle_string_nonvacuous :
   let l := [97;34;98;10;34;34;120;92;116;92;117;48;48;101;57;92;85;48;48;48;49;70;54;48;48;34;34;34;32;46] in
   t_string 34 true l = Some ([97;34;98;10;34;34;120;9;233;128512], [32;46]) /\ strconst 34 true l = t_string 34 true l.
+Proof. vm_compute. split; reflexivity. Qed.
+
+(* ---------------------------------------------------------------- Turtle term level: IRIREF
+   [n3_iriref] is the '<' branch of SinkParser.uri_ref2: cut at the first '>', substitute every \U escape, THEN every
+   \u escape (two passes), join with the base, the trailing-'#' patch (Grammar/TurtleIri.v, tied by suite "tterm").
+   [iri_body] is the Turtle production [18] IRIREF with UCHAR and its denotation.  _partial: of the Turtle terminals
+   this covers IRIREF (and, above, the four string forms); prefixed names (PNAME_NS / PNAME_LN with PN_LOCAL escapes:
+   SinkParser.qname), INTEGER / DECIMAL / DOUBLE, the LANGTAG after a string and BLANK_NODE_LABEL at Turtle level are
+   NOT modelled (differential testing by suite "spell").
+   Hypotheses: the denotation contains no backslash (an IRI with a backslash is not a legal IRI; exactly there the two
+   passes would differ from the grammar's single reading: a \U escape denoting a backslash in front of uXXXX), and the
+   base is well-formed and hierarchical as in C05_join_is_rfc3986. *)
+Theorem C05_turtle_term_forms_partial : forall b l v r, b <> [] ->
+  iri_body (S (length l)) l = Some (v, r) -> memN BSL v = false ->
+  base_ok b = true -> (hierarchical b || same_document v) = true ->
+  exists t, rdf_resolve b v = Some t /\ n3_iriref (Some b) l = Some (t, r).
+Proof. exact iriref_read. Qed.
+Print Assumptions C05_turtle_term_forms_partial.
+
+(* the lemma behind it: on every legal IRIREF that denotes no backslash, the two substitution passes compute the
+   grammar's denotation *)
+Theorem C05_iriref_two_pass_unescape : forall n l v r, iri_body n l = Some (v, r) -> memN BSL v = false ->
+  exists raw, l = raw ++ 62 :: r /\ span (fun c => negb (c =? 62)) l = (raw, 62 :: r) /\ two_pass raw = Some v.
+Proof. exact two_pass_is_denotation. Qed.
+Print Assumptions C05_iriref_two_pass_unescape.
+
+Theorem C05_turtle_iriref_spec_ok_model : forall c, i_spec_ok c (i_model c) = true.
+Proof. exact i_spec_ok_model. Qed.
+Print Assumptions C05_turtle_iriref_spec_ok_model.
+
+(* where the two passes differ from the grammar (illegal IRI: it contains a backslash) *)
+Example C05_iriref_two_pass_differs_on_backslash :
+  let l := [104;58;92;85;48;48;48;48;48;48;53;67;117;48;48;52;49;62] in      (* h: \U0000005C u0041 > *)
+  iri_body 20 l = Some ([104;58;92;117;48;48;52;49], []) /\ two_pass [104;58;92;85;48;48;48;48;48;48;53;67;117;48;48;52;49] = Some [104;58;65].
 Proof. vm_compute. split; reflexivity. Qed.
 
 (* non-vacuity: a two-row N-Quads document with every kind of term, escapes in the
